@@ -446,6 +446,8 @@ func (state *state) Expire() error {
 	if modified {
 		err := state.rewrite()
 		if err != nil {
+			// the file still holds the swept tokens
+			state.reset()
 			return err
 		}
 	}
